@@ -427,6 +427,7 @@ impl Engine for NetEngine {
         let runs = match (property, tier) {
             ("C15", Tier::Quick) => 32,
             ("C15", Tier::Thorough) => 2_000,
+            ("C20", Tier::Quick) => 200,
             (_, Tier::Quick) => 480,
             (_, Tier::Thorough) => 24_000,
         };
